@@ -61,9 +61,9 @@ example : ∃ s, ReachableH s ∧ s.core.isOpen = true ∧ ¬ Healed s ∧
 
 /-- **nothing queued is lost silently while healing.**  `C07_never_wedges`, and moreover every entry
     that was queued in `s` has, in the part of the trace written during the healing, an event that says
-    what happened to it (`fateEv`): a write attempt (`wire`, or `deadWrite` / `writeFault` on a transport that
-    was already lost - the entry is then re-queued or dropped `maxRetries`) or a `qdrop` with its reason
-    (`expired`, `encErr`, `maxRetries`). -/
+    what happened to it (`fateEv`): a write attempt (`wire`, or `writeFault` on a transport that fails - the
+    entry is then re-queued or dropped `maxRetries`; `deadWrite` is in `fateEv` too but is never produced, see
+    `C02_no_write_on_lost_connection`) or a `qdrop` with its reason (`expired`, `encErr`, `maxRetries`). -/
 theorem C07_never_wedges_fate {s : Sys} (h : ReachableH s) (ho : s.core.isOpen = true) :
     ∃ ls s', benignRun (s.core.now + RETRY_DELAY) s ls = true ∧ run s ls = some s' ∧ Healed s' ∧
       s'.core.now ≤ s.core.now + RETRY_DELAY ∧
@@ -137,7 +137,8 @@ example : ∃ s, ReachableD s ∧ s.core.isOpen = true ∧ s.core.trace.length =
     peer resets transport 0 (`envLost 0`) and the reader is then told "EOF" (`readEof`) instead of being
     handed the exception: `_read` sees `writer.is_closing()` and returns without `reset_connection()`.  The
     socket is open, `is_connected` is still set, every task has finished: no benign label sequence
-    heals.  (A later `send` would notice; nothing else does.) -/
+    heals.  (Since `_drain_message_queue` returns at once when the writer is closing, a later `send` no longer
+    notices either: its message just stays queued.  Only `reset_connection()` / `close()` get out of this state.) -/
 theorem C07_wedge_without_eof_rule :
     ∃ s, runD init [.apiOpen, .run 1 .go, .run 1 .openOk, .run 1 .go, .run 2 .go, .envLost 0, .run 2 .readEof,
                     .envLostRan 0] = some s ∧
